@@ -248,6 +248,32 @@ func schemeScenarios() []scenario {
 			{"IndexOfNthEnabled", func() []byte { return []byte{byte(m.IndexOfNthEnabled(1))} }},
 		}
 	}})
+	// a complete mask (every participant enabled), used directly and through clones taken by each thread
+	out = append(out, scenario{name: "bdn.Mask, complete (bn256)", pairsOf: allPairs, build: func() []method {
+		ps := groups.PairingSuites()[0]
+		g2 := groups.ByName(ps.Name + ".G2")
+		sch := bdn.NewSchemeOnG1(ps.Suite)
+		var pubs []kyber.Point
+		var sigs [][]byte
+		for i := 0; i < 3; i++ {
+			sk := alpha.ToScalar(g2.Scalar(), alpha.Rand(fmt.Sprint("c20-bdn", i), g2.Order), g2.Order)
+			pubs = append(pubs, g2.Point().Mul(sk, nil))
+			sg, _ := sch.Sign(sk, []byte("c20 bdn message"))
+			sigs = append(sigs, sg)
+		}
+		m, _ := bdn.NewMask(g2.Group, pubs, nil)
+		for i := 0; i < 3; i++ {
+			_ = m.SetBit(i, true)
+		}
+		return []method{
+			{"Clone", func() []byte { return m.Clone().Mask() }},
+			{"CountEnabled", func() []byte { return []byte{byte(m.CountEnabled())} }},
+			{"AggregatePublicKeys", func() []byte { p, _ := sch.AggregatePublicKeys(m); return fmod.Enc(p) }},
+			{"Clone then AggregatePublicKeys(clone)", func() []byte { p, _ := sch.AggregatePublicKeys(m.Clone()); return fmod.Enc(p) }},
+			{"AggregateSignatures", func() []byte { p, _ := sch.AggregateSignatures(sigs, m); return fmod.Enc(p) }},
+			{"Clone then AggregateSignatures(clone)", func() []byte { p, _ := sch.AggregateSignatures(sigs, m.Clone()); return fmod.Enc(p) }},
+		}
+	}})
 	out = append(out, scenario{name: "cosi.Mask (ed25519)", pairsOf: allPairs, build: func() []method {
 		g := groups.ByName("ed25519")
 		s := g.Group.(cosi.Suite)
@@ -465,7 +491,7 @@ func Run(c *vf.Check) {
 	if !raceOn {
 		c.Broken("C20 must run in the binary built with -race (VERIF_RACE_LOG unset)")
 	}
-	c.Finish("engine R (this tier): every two-thread fork-join program m1(O) || m2(O) for every shared object O in {a non-normalised sum, a decoded point, a product, a scalar of each of the 20 groups; suites and their random streams; a public polynomial; Schnorr and BLS public keys of all 5 pairing suites; a BDN and a CoSi mask} and every unordered pair (m1,m2), incl. m1=m2, of the read-only method set {MarshalBinary, MarshalTo, String, MarshalSize, Equal (both sides and self), Clone, Data, EmbedLen, operand of Add/Sub/Neg/Mul/Set into a private receiver, Pair/ValidatePairing with the shared operand, Verify with the shared key, Eval/Check/Commit/Shares, stream draws, Mask.Clone/Mask/Participants/...} executed once on a fresh object in a binary built with the race detector (fork-join: the happens-before relation is schedule-independent, so one run decides the program); results compared with the sequential run on another fresh object. "+
+	c.Finish("engine R (this tier): every two-thread fork-join program m1(O) || m2(O) for every shared object O in {a non-normalised sum, a decoded point, a product, a scalar of each of the 20 groups; suites and their random streams; a public polynomial; Schnorr and BLS public keys of all 5 pairing suites; a BDN mask (partial and complete, also through clones taken by each thread) and a CoSi mask} and every unordered pair (m1,m2), incl. m1=m2, of the read-only method set {MarshalBinary, MarshalTo, String, MarshalSize, Equal (both sides and self), Clone, Data, EmbedLen, operand of Add/Sub/Neg/Mul/Set into a private receiver, Pair/ValidatePairing with the shared operand, Verify with the shared key, Eval/Check/Commit/Shares, stream draws, Mask.Clone/Mask/Participants/...} executed once on a fresh object in a binary built with the race detector (fork-join: the happens-before relation is schedule-independent, so one run decides the program); results compared with the sequential run on another fresh object. "+
 		"non-trivial = every program; distinct by (object, m1, m2)",
 		[]string{"Go's race detector (vector clocks, 4 shadow cells per word): limits are shadow-cell eviction, control flow depending on a racy read, and accesses made by assembly routines, which it does not instrument",
 			"the same race in the same pair of call stacks is reported once per process by the detector; violations are keyed by the racing kyber function, not by the program"},
